@@ -163,7 +163,7 @@ def arrays_of(elems, maxlen):
     return out
 ELEMS = [None, 1, 2, 'a', [1], {'a': 1}, {'a': 2}, {'a': 'x'}, {'b': 1}]
 OBJS = [{}, {'a': 1}, {'b': 2}, {'a': 1, 'b': 2}, {'a': None}, {'é': 1, 'a': 2, 'b': 3}, {'b': 1, 'a': {'a': 1}}]
-EXPREFS = [('expref', '&@'), ('expref', '&a'), ('expref', '&b'), ('expref', '&length(@)'), ('expref', '&to_number(@)'), ('expref', '&abs(@)'), ('expref', '&to_array(@)'), ('expref', '&nosuch(@)')]
+EXPREFS = [('expref', '&@'), ('expref', '&a'), ('expref', '&b'), ('expref', '&length(@)'), ('expref', '&to_number(@)'), ('expref', '&abs(@)'), ('expref', '&to_array(@)'), ('expref', '&nosuch(@)'), ('expref', '&a[0:1]'), ('expref', '&[0:1]')]
 ANY = [None, True, 0, 'a', [], [1], ['a'], [1, 'a'], {}, {'a': 1}, ('expref', '&a')]
 
 def universes(A):
